@@ -110,7 +110,28 @@ def scenarios(ctx):
     # the CA's connection schedule (ext/sched_c20.py): about half of the tls-alpn-01 scenarios above are validated
     # over several connections that are open at the same time
     sched_c20.assign(ctx, out)
-    return auditd_c20.widen(ctx, out)
+    return process_env_level(ctx, auditd_c20.widen(ctx, out))
+
+
+def process_env_level(ctx, out):
+    """Fourth placement of the documented variables: REAL environment variables of the acmed process (service
+    manager `Environment=`, `export` in an init script), alone — no env table at all — and under each level of the
+    configuration (documented precedence: identifier over certificate over global over the daemon's own
+    environment): the process then carries values that lead elsewhere (other directories, another port) and the
+    table the ones the CA looks at.  Level `process` / `process<global` / `process<certificate` /
+    `process<identifier`; all three groups."""
+    i = max([s["idx"] for s in out] + [-1]) + 1
+    groups = ("http-01-echo", "tls-alpn-01-tacd-tcp", "tls-alpn-01-tacd-unix")
+    over = ("global", "certificate", "identifier")
+    for k, group in enumerate(groups):
+        levels = ["process"] + (["process<" + over[(k + ctx.rng.randrange(3)) % 3]] if ctx.quick() else
+                                ["process<" + o for o in over])
+        for level in levels:
+            out.append({"idx": i, "group": group, "git": False, "n": 1 if ctx.quick() else 2,
+                        "ident": "example.org" if level == "process" or group.endswith("unix") else "a.b.example.net", "level": level,
+                        "default_hostport": False})
+            i += 1
+    return out
 
 
 class default_port_lock:
@@ -234,9 +255,24 @@ def run_one(sc, root, helper, tacd_dir):
     cert = {"endpoint": "ep1", "account": "acc1", "identifiers": [ident_tbl] + more, "hooks": hooks,
             "key_type": "ecdsa_p256", "name": "crt"}
     g = {"accounts_directory": os.path.join(d, "accounts"), "certificates_directory": os.path.join(d, "certs")}
-    if sc["level"] == "global":
+    proc_env = {}
+    cfg_level = sc["level"]
+    if sc["level"].startswith("process"):
+        # the acmed PROCESS carries the variables: alone (no env table), or values that lead elsewhere under a table
+        cfg_level = sc["level"].partition("<")[2]
+        proc_env = dict(env)
+        if cfg_level:
+            for k in proc_env:
+                if k.endswith("_ROOT"):
+                    proc_env[k] = os.path.join(d, "elsewhere-" + k.lower())
+                    os.makedirs(proc_env[k], exist_ok=True)
+            if "TACD_PORT" in proc_env:
+                proc_env["TACD_HOST"], proc_env["TACD_PORT"] = "127.0.0.2", str(tacdrun.free_port())
+    if cfg_level == "":
+        pass
+    elif cfg_level == "global":
         g["env"] = env
-    elif sc["level"] == "certificate":
+    elif cfg_level == "certificate":
         cert["env"] = env
     else:
         ident_tbl["env"] = env
@@ -253,6 +289,7 @@ def run_one(sc, root, helper, tacd_dir):
     open(gitcfg, "w").close()
     denv = {"PATH": tacd_dir + os.pathsep + os.environ.get("PATH", ""), "GIT_CONFIG_GLOBAL": gitcfg,
             "GIT_CONFIG_SYSTEM": gitcfg}
+    denv.update(proc_env)
     dmn = flow.Daemon(cfg_path, env=denv)
     flow.wait_progress(lambda: len(flow.post_ops(log)) >= sc["n"] or not dmn.alive(),
                        lambda: len(ca.log), idle=40 + 10 * sc["n"], cap=600)
@@ -313,8 +350,29 @@ def run_one(sc, root, helper, tacd_dir):
 def render_check(ctx):
     """Model.HooksWorld.render on the regenerated TOML vs the documented path/address strings."""
     cases = []
-    for envset in ({}, {"HTTP_ROOT": "/srv/http"}, {"TACD_HOST": "192.0.2.1", "TACD_PORT": "5010"},
-                   {"TACD_PID_ROOT": "/tmp/p", "TACD_SOCK_ROOT": "/tmp/s"}):
+    sets = [{}, {"HTTP_ROOT": "/srv/http"}, {"TACD_HOST": "192.0.2.1", "TACD_PORT": "5010"},
+            {"TACD_PID_ROOT": "/tmp/p", "TACD_SOCK_ROOT": "/tmp/s"}]
+    # the same sets placed in the daemon's own environment (lowest precedence), alone and under a configuration level
+    # that sets other values: the map the templates see is Model.Hooks.challengeEnv (op hooks_env, kind challenge)
+    layered = []
+    for es in sets[1:]:
+        other = {k: v + "-proc" if k.endswith("_ROOT") else {"TACD_HOST": "198.51.100.9", "TACD_PORT": "6"}[k]
+                 for k, v in es.items()}
+        layered += [{"proc": es}] + [{"proc": other, lvl: es} for lvl in ("global", "owner", "ident")]
+    merged = vlib.model([{"op": "hooks_env", "kind": "challenge", "proc": [[k, v] for k, v in l.get("proc", {}).items()],
+                          "global": [[k, v] for k, v in l.get("global", {}).items()],
+                          "owner": [[k, v] for k, v in l.get("owner", {}).items()],
+                          "ident": [[k, v] for k, v in l.get("ident", {}).items()],
+                          "keys": sorted(l["proc"])} for l in layered])
+    for l, m in zip(layered, merged):
+        es = [v for k, v in l.items() if k != "proc"] or [l["proc"]]
+        got = {k: v for k, v in (m.get("model") or [])}
+        ctx.count("render:process-environment:" + ("alone" if len(l) == 1 else "under-" + [k for k in l if k != "proc"][0]))
+        if got != es[0] or m.get("model") != m.get("expected"):
+            ctx.broke("correspondence", "environment of the templates for %s: model %s, documented %s" % (l, m.get("model"), es[0]),
+                      {"layers": l})
+        sets.append(got)
+    for envset in sets:
         for ident in ("example.org", "a.b.example.net"):
             vars_ = {"identifier": ident, "identifier_tls_alpn": ident, "proof": "PROOF", "file_name": "TOKEN"}
             doc = {
